@@ -10,11 +10,23 @@ C02 — Honest provers can always prove and are never dropped or burned.
    `C02_manageFile_keeps_recent_provers` (honest prover among dishonest ones);
    the whole block: `C02_honest_prover_survives_block`, `C02_honest_provider_not_burned_by_block`,
    `C02_block_all_honest_unchanged`.
+6. Along whole executions (helper lemmas in `Canine/Proofs/HonestRun.lean`):
+   `C02_schedule_gives_window_test` (schedule of accepted proofs ⇒ `isYoung ∨ ProvenLastBlock`),
+   `C02_honest_prover_never_dropped_along_histories` (one file: listed with its record in every
+   state of any run of messages / begin-blockers / parameter changes, the only per-block premise
+   being the schedule of accepted proofs), `C02_honest_prover_not_burned_on_account_of_file`,
+   `C02_honest_prover_never_dropped_whole_run_schedule` (schedule read off the whole run),
+   `C02_honest_provider_never_burned_along_histories` (all files of the prover: no reward block
+   touches its provider record; burn counter at the end = at the start); non-vacuity:
+   `C02_honest_run_example`, `C02_honest_run_example_burn`.
 The scope is the reward block: a quorum of `report` messages can still remove any prover (that is
 C03/C04 territory), which is why "never dropped" is stated for `manageProof`/`manageFile`/
 `manageRewards`.
+(Section 6 lifts this to whole executions and excludes those other removals explicitly:
+`removesOtherwise`.)
 -/
 import Canine.Proofs.StorageA
+import Canine.Proofs.HonestRun
 import Canine.Proofs.Merkle
 import Canine.Generated.PureFns
 namespace Canine.Storage
@@ -382,5 +394,556 @@ theorem C02_generated_window_functions_are_the_model (h start window lp : Int) :
     Generated.Pure.ProvenThisBlock_inputs = ["f.Start", "f.ProofInterval"] ∧
     Generated.Pure.IsYoung_inputs = ["f.Start", "f.ProofInterval"] :=
   ⟨rfl, rfl, rfl, rfl, rfl, rfl, rfl, rfl⟩
+
+/-! ## 6. Along whole executions: the schedule of accepted proofs is the only per-block premise -/
+
+/-- **From the schedule to the chain's window test.**  `A` = the heights at which proofs of the
+prover were accepted so far (`join ∈ A`: the first of them, the joining height); `lp`, the stored
+`lastProven`, is at least each of them.  If every complete proof window `[st + j·W, st + (j+1)·W)`
+that begins at or after `join` and ends at or before the reward height `h` contains a height of `A`,
+then at `h` the file is still in its first window (`isYoung`, not judged) or the record passes
+`ProvenLastBlock`. -/
+theorem C02_schedule_gives_window_test (st W h lp join : Int) (A : List Int) (hW : 1 ≤ W)
+    (hjoin : join ∈ A) (hlp : ∀ x ∈ A, x ≤ lp)
+    (hevery : ∀ j : Int, 0 ≤ j → join ≤ st + j * W → st + (j + 1) * W ≤ h →
+      ∃ x ∈ A, st + j * W ≤ x ∧ x < st + (j + 1) * W) :
+    isYoung h st W = true ∨ provenLastBlock h st W lp = true := by
+  by_cases hy : h ≤ st + W
+  · exact Or.inl (C02_young_file_grace h st W hy)
+  · right
+    rw [C02_window_iff h st W lp (by omega)]
+    have hj := hlp join hjoin
+    have hd := Int.emod_add_mul_ediv (h - st) W
+    have hm0 := Int.emod_nonneg (h - st) (by omega : W ≠ 0)
+    have hm1 := Int.emod_lt_of_pos (h - st) (by omega : 0 < W)
+    have hq0 : 0 ≤ (h - st) / W := Int.ediv_nonneg (by omega) (by omega)
+    generalize (h - st) / W = q at *
+    have e1 : (q - 1) * W = q * W - W := by rw [Int.sub_mul, Int.one_mul]
+    rw [Int.mul_comm W q] at hd
+    by_cases hq : q = 0
+    · subst hq; simp only [Int.zero_mul] at *; omega
+    · by_cases hjw : join ≤ st + (q - 1) * W
+      · have e2 : (q - 1 + 1) * W = q * W := by rw [Int.sub_add_cancel]
+        obtain ⟨x, hx, hx1, _⟩ := hevery (q - 1) (by omega) hjw (by rw [e2]; omega)
+        have := hlp x hx
+        omega
+      · omega
+
+/-- **C02 along whole executions, one file.**
+
+Setting.  `s0` is any consistent state (every reachable state is one: `consistent_run`) in which
+prover `c` is listed on the file `f0` stored at key `k = (merkle, owner, start)` and has a proof
+record `p0`; `W = f0.proofInterval ≥ 1` is the file's own proof window, fixed when it was posted.
+`evs` is any sequence of delivered messages, begin-blockers and governance parameter changes
+(`setParams`: `ProofWindow`, `CheckWindow`, … may all move during the run) that goes through.
+
+Hypotheses about the history only:
+* `hmono`  heights do not decrease along the run and are at least `p0.lastProven` (the record is
+  not from the future);
+* `hno`    no event of `removesOtherwise` (the owner's `deleteFile` of `k`; the owner's re-`postFile`
+  of the same Merkle root in the file's start block; a `report` against `(c, k)` completing its
+  quorum) — none of them is a reward block, `step_local` proves there is no other message that
+  unlists `(c, k)` or deletes its record;
+* `hsched` the schedule: for every begin-blocker of the run that runs the reward block (height `h`,
+  `h % CheckWindow` not positive with the `CheckWindow` in force at that moment) and every complete
+  proof window `[start + j·W, start + (j+1)·W)`, `j ≥ 0`, that begins at or after the joining height
+  `p0.lastProven` and ends at or before `h`: one of the heights `p0.lastProven`, or a height at which
+  a `postProof` of `c` for `k` was accepted earlier in the run, lies in that window.
+
+Conclusions.
+1. (derived, not assumed) at every reward block of the run the file is still in its first window
+   (`isYoung`: the chain does not judge it) or the prover's record passes the chain's test
+   `ProvenLastBlock` — i.e. `Recent`, the premise of `C02_honest_prover_survives_block`;
+2. in every state of the run (before each event, and at the end) `c` is still listed on the file
+   stored at `k`, that file still has proof window `W`, and the proof record of `(c, k)` exists. -/
+theorem C02_honest_prover_never_dropped_along_histories
+    (c : String) (k : FKey) (evs : List Event) (s0 s' : State) (f0 : File) (p0 : Proof)
+    (hc : Consistent s0)
+    (hf0 : AMap.get s0.files k = some f0) (hl0 : (c, k) ∈ f0.proofs)
+    (hp0 : AMap.get s0.proofs (c, k) = some p0)
+    (hW : 1 ≤ f0.proofInterval)
+    (hrun : evs.foldlM applyEvent s0 = some s')
+    (hmono : (p0.lastProven :: evs.filterMap Event.height).Pairwise (· ≤ ·))
+    (hno : ∀ se ∈ runTrace s0 evs, ¬ removesOtherwise c k se.1 se.2)
+    (hsched : ∀ pre s h now post, runTrace s0 evs = pre ++ (s, Event.block h now) :: post →
+      rewardHeight s h →
+      ∀ j : Int, 0 ≤ j → p0.lastProven ≤ k.2.2 + j * f0.proofInterval →
+        k.2.2 + (j + 1) * f0.proofInterval ≤ h →
+        ∃ x ∈ p0.lastProven :: acceptedIn c k pre,
+          k.2.2 + j * f0.proofInterval ≤ x ∧ x < k.2.2 + (j + 1) * f0.proofInterval) :
+    (∀ pre s h now post, runTrace s0 evs = pre ++ (s, Event.block h now) :: post → rewardHeight s h →
+      ∃ f, AMap.get s.files k = some f ∧ (c, k) ∈ f.proofs ∧ Recent s h f (c, k)) ∧
+    (∀ s ∈ runStates s0 evs s', ∃ f p, AMap.get s.files k = some f ∧ (c, k) ∈ f.proofs ∧
+      f.proofInterval = f0.proofInterval ∧ AMap.get s.proofs (c, k) = some p) := by
+  rw [List.pairwise_cons] at hmono
+  obtain ⟨hA0, hmono⟩ := hmono
+  -- the schedule gives the window test for every `lastProven` dominating the accepted heights
+  have hwin : ∀ pre s h now post, runTrace s0 evs = pre ++ (s, Event.block h now) :: post →
+      rewardHeight s h → Consistent s → ∀ f, AMap.get s.files k = some f →
+        f.proofInterval = f0.proofInterval →
+        ∀ lp, (∀ x ∈ [p0.lastProven] ++ acceptedIn c k pre, x ≤ lp) → WindowOK h f lp := by
+    intro pre s h now post hsplit hrh hcs f hf hWf lp hlp
+    have hst : f.start = k.2.2 := by rw [← hcs.key k f hf]; rfl
+    unfold WindowOK
+    rw [hst, hWf]
+    exact C02_schedule_gives_window_test k.2.2 f0.proofInterval h lp p0.lastProven
+      (p0.lastProven :: acceptedIn c k pre) hW List.mem_cons_self hlp
+      (hsched pre s h now post hsplit hrh)
+  have h0 : Held c k f0.proofInterval s0 [p0.lastProven] :=
+    ⟨f0, p0, hf0, hl0, rfl, hp0, fun x hx => by rw [List.mem_singleton.mp hx]; exact Int.le_refl _⟩
+  obtain ⟨⟨_, hend⟩, hall⟩ := held_run c k f0.proofInterval evs s0 s' [p0.lastProven] hc h0
+    (by simp) hrun hmono
+    (fun x hx h hh => by rw [List.mem_singleton.mp hx]; exact hA0 h hh) hno hwin
+  constructor
+  · intro pre s h now post hsplit hrh
+    obtain ⟨hcs, f, p, hf, hl, hWf, hp, hb⟩ := hall pre s _ post hsplit
+    exact ⟨f, hf, hl, p, hp, hwin pre s h now post hsplit hrh hcs f hf hWf p.lastProven hb⟩
+  · intro s hs
+    rcases runStates_cases hs with e | ⟨pre, e, post, hsplit⟩
+    · subst e
+      obtain ⟨f, p, hf, hl, hWf, hp, _⟩ := hend
+      exact ⟨f, p, hf, hl, hWf, hp⟩
+    · obtain ⟨_, f, p, hf, hl, hWf, hp, _⟩ := hall pre s e post hsplit
+      exact ⟨f, p, hf, hl, hWf, hp⟩
+
+/-- **… and no reward block of the run burns the prover's provider on account of that file.**
+Under the hypotheses of `C02_honest_prover_never_dropped_along_histories`: a begin-blocker of the
+run leaves `c`'s provider record (burn counter included) untouched whenever `c`'s proof keys on the
+*other* files pass the window test at that block — so any increase of the counter is attributable to
+another file.  (`C02_honest_provider_never_burned_along_histories` below removes the premise about
+the other files by asking the schedule of all of them.) -/
+theorem C02_honest_prover_not_burned_on_account_of_file
+    (c : String) (k : FKey) (evs : List Event) (s0 s' : State) (f0 : File) (p0 : Proof)
+    (hc : Consistent s0)
+    (hf0 : AMap.get s0.files k = some f0) (hl0 : (c, k) ∈ f0.proofs)
+    (hp0 : AMap.get s0.proofs (c, k) = some p0)
+    (hW : 1 ≤ f0.proofInterval)
+    (hrun : evs.foldlM applyEvent s0 = some s')
+    (hmono : (p0.lastProven :: evs.filterMap Event.height).Pairwise (· ≤ ·))
+    (hno : ∀ se ∈ runTrace s0 evs, ¬ removesOtherwise c k se.1 se.2)
+    (hsched : ∀ pre s h now post, runTrace s0 evs = pre ++ (s, Event.block h now) :: post →
+      rewardHeight s h →
+      ∀ j : Int, 0 ≤ j → p0.lastProven ≤ k.2.2 + j * f0.proofInterval →
+        k.2.2 + (j + 1) * f0.proofInterval ≤ h →
+        ∃ x ∈ p0.lastProven :: acceptedIn c k pre,
+          k.2.2 + j * f0.proofInterval ≤ x ∧ x < k.2.2 + (j + 1) * f0.proofInterval) :
+    ∀ pre s h now post sa, runTrace s0 evs = pre ++ (s, Event.block h now) :: post →
+      applyEvent s (.block h now) = some sa →
+      (∀ k' f', k' ≠ k → AMap.get s.files k' = some f' → (c, k') ∈ f'.proofs →
+        Recent s h f' (c, k')) →
+      AMap.get sa.providers c = AMap.get s.providers c := by
+  obtain ⟨hrec, _⟩ := C02_honest_prover_never_dropped_along_histories c k evs s0 s' f0 p0 hc hf0 hl0
+    hp0 hW hrun hmono hno hsched
+  intro pre s h now post sa hsplit hs hothers
+  have hcs : Consistent s := consistent_of_split hc hrun hsplit
+  apply block_keeps_provider hcs (applyEvent_block hs) c
+  intro hrh k' f' hf' pk hpk hpc
+  have hk : pk.2 = k' := hcs.listed k' f' hf' pk hpk
+  have e : pk = (c, k') := by
+    obtain ⟨a, b⟩ := pk
+    simp only at hpc hk
+    rw [hpc, hk]
+  subst e
+  by_cases hkk : k' = k
+  · subst hkk
+    obtain ⟨f, hf, _, hr⟩ := hrec pre s h now post hsplit hrh
+    rw [hf'] at hf; cases hf
+    exact hr
+  · exact hothers k' f' hkk hf' hpk
+
+/-- **The same with the schedule read off the whole run.**  Because heights do not decrease, the
+schedule hypothesis may be stated with *all* the accepted heights of the run, wherever they occur:
+"the heights at which a `postProof` of `c` for `k` was accepted in the run, plus the joining height,
+contain one height in every complete proof window of the file that ends at or before a reward
+block" (an accepted height below the end of such a window is below the block's height, hence
+occurred before the block). -/
+theorem C02_honest_prover_never_dropped_whole_run_schedule
+    (c : String) (k : FKey) (evs : List Event) (s0 s' : State) (f0 : File) (p0 : Proof)
+    (hc : Consistent s0)
+    (hf0 : AMap.get s0.files k = some f0) (hl0 : (c, k) ∈ f0.proofs)
+    (hp0 : AMap.get s0.proofs (c, k) = some p0)
+    (hW : 1 ≤ f0.proofInterval)
+    (hrun : evs.foldlM applyEvent s0 = some s')
+    (hmono : (p0.lastProven :: evs.filterMap Event.height).Pairwise (· ≤ ·))
+    (hno : ∀ se ∈ runTrace s0 evs, ¬ removesOtherwise c k se.1 se.2)
+    (hsched : ∀ s h now, (s, Event.block h now) ∈ runTrace s0 evs → rewardHeight s h →
+      ∀ j : Int, 0 ≤ j → p0.lastProven ≤ k.2.2 + j * f0.proofInterval →
+        k.2.2 + (j + 1) * f0.proofInterval ≤ h →
+        ∃ x ∈ p0.lastProven :: acceptedIn c k (runTrace s0 evs),
+          k.2.2 + j * f0.proofInterval ≤ x ∧ x < k.2.2 + (j + 1) * f0.proofInterval) :
+    (∀ pre s h now post, runTrace s0 evs = pre ++ (s, Event.block h now) :: post → rewardHeight s h →
+      ∃ f, AMap.get s.files k = some f ∧ (c, k) ∈ f.proofs ∧ Recent s h f (c, k)) ∧
+    (∀ s ∈ runStates s0 evs s', ∃ f p, AMap.get s.files k = some f ∧ (c, k) ∈ f.proofs ∧
+      f.proofInterval = f0.proofInterval ∧ AMap.get s.proofs (c, k) = some p) := by
+  apply C02_honest_prover_never_dropped_along_histories c k evs s0 s' f0 p0 hc hf0 hl0 hp0 hW hrun
+    hmono hno
+  intro pre s h now post hsplit hrh j hj hjoin hjw
+  have hmem : (s, Event.block h now) ∈ runTrace s0 evs := by rw [hsplit]; simp
+  obtain ⟨x, hx, hx1, hx2⟩ := hsched s h now hmem hrh j hj hjoin hjw
+  refine ⟨x, ?_, hx1, hx2⟩
+  rcases List.mem_cons.mp hx with hx | hx
+  · rw [hx]; exact List.mem_cons_self
+  · apply List.mem_cons_of_mem
+    rw [hsplit, acceptedIn_append] at hx
+    rcases List.mem_append.mp hx with hx | hx
+    · exact hx
+    · have := accepted_ge_of_split hrun (List.pairwise_cons.mp hmono).2 hsplit c k h rfl x hx
+      omega
+
+/-! ### Non-vacuity of `C02_honest_prover_never_dropped_along_histories`
+
+A file started at height 10 with proof window 4 (windows [10,14), [14,18), [18,22)); bob joined at 10
+and gets one proof accepted per window (12, 15, 19); the begin-blocker runs the reward block at 15
+(check window 5) and, after governance moved `ProofWindow` to 7 and `CheckWindow` to 10, at 20. -/
+
+def runParams : Params := { schedParams with proofWindow := 4, checkWindow := 5 }
+def runParams' : Params := { schedParams with proofWindow := 7, checkWindow := 10 }
+
+def runFile : File :=
+  { merkle := "aa", owner := "alice", start := 10, expires := 0, fileSize := 2500,
+    proofInterval := 4, proofType := 0, proofs := [("bob", schedKey)], maxProofs := 3, note := "{}" }
+
+/-- bob listed on the file, last accepted proof at `lp`, module parameters `ps` -/
+def runState (lp : Int) (ps : Params) : State :=
+  { files := [(schedKey, runFile)], files2 := [(schedKey, runFile)],
+    proofs := [(("bob", schedKey), schedRecord "bob" lp 0)],
+    providers := [("bob", schedProvider "bob")],
+    payinfo := [], collateral := [], gauges := [], attests := [], reports := [], bank := [],
+    params := ps, moduleAcc := "storage", collateralAcc := "collateral", polAcc := "pol",
+    feeAcc := "fee", blocked := [] }
+
+def runProof (h : Int) : Event := .msg h 0 (.postProof "bob" "aa" "alice" 10 0 true 0)
+
+def runEvents : List Event :=
+  [runProof 12, .block 15 0, runProof 15, .setParams runParams', runProof 19, .block 20 0]
+
+theorem runState_consistent (lp : Int) (ps : Params) : Consistent (runState lp ps) := by
+  refine ⟨by simp [AMap.WF, AMap.keys, runState], ?_, ?_, ?_, ?_⟩
+  · intro k f hf
+    simp only [runState, AMap.get] at hf
+    split at hf
+    · rename_i e; cases hf; exact e
+    · cases hf
+  · intro k f hf
+    simp only [runState, AMap.get] at hf
+    split at hf
+    · rename_i e; cases hf; intro pk hpk
+      simp only [runFile, List.mem_cons, List.not_mem_nil, or_false] at hpk
+      rw [hpk]; exact e
+    · cases hf
+  · intro pk p hp
+    simp only [runState, AMap.get] at hp
+    split at hp
+    · rename_i e; cases hp; rw [← e]; rfl
+    · cases hp
+  · intro pk fm hfm; simp [runState] at hfm
+
+/-- a reward block on a state with bob alone and recent: nothing changes -/
+theorem run_block (lp : Int) (ps : Params) (h : Int)
+    (h1 : (runState lp ps).files.foldl
+      (fun (acc : State × Tracker) kv => manageFile acc.1 h acc.2 kv.2) (runState lp ps, [])
+        = (runState lp ps, [("bob", 2500)])) :
+    manageRewards (runState lp ps) h 0 = .ok (runState lp ps) := by
+  have h2 : pullGauges (runState lp ps) 0 = .ok (runState lp ps, []) := rfl
+  have h3 : sortedProvers [("bob", 2500)] = [("bob", 2500)] := by simp [sortedProvers]
+  unfold manageRewards
+  simp only [h1, bind, Except.bind, h2, h3, List.foldlM_cons, List.foldlM_nil]
+  rfl
+
+theorem run_step1 : applyEvent (runState 10 runParams) (runProof 12) = some (runState 12 runParams) := by decide
+theorem run_step2 : applyEvent (runState 12 runParams) (.block 15 0) = some (runState 12 runParams) := by
+  have := run_block 12 runParams 15 (by decide)
+  simp only [applyEvent, beginBlock]
+  rw [if_neg (by decide), if_neg (by decide), this]
+theorem run_step3 : applyEvent (runState 12 runParams) (runProof 15) = some (runState 15 runParams) := by decide
+theorem run_step4 : applyEvent (runState 15 runParams) (.setParams runParams') = some (runState 15 runParams') := rfl
+theorem run_step5 : applyEvent (runState 15 runParams') (runProof 19) = some (runState 19 runParams') := by decide
+theorem run_step6 : applyEvent (runState 19 runParams') (.block 20 0) = some (runState 19 runParams') := by
+  have := run_block 19 runParams' 20 (by decide)
+  simp only [applyEvent, beginBlock]
+  rw [if_neg (by decide), if_neg (by decide), this]
+
+theorem run_goes_through : runEvents.foldlM applyEvent (runState 10 runParams) = some (runState 19 runParams') := by
+  simp only [runEvents, List.foldlM_cons, List.foldlM_nil, bind, Option.bind, run_step1, run_step2,
+    run_step3, run_step4, run_step5, run_step6, pure]
+
+theorem run_trace : runTrace (runState 10 runParams) runEvents =
+    [(runState 10 runParams, runProof 12), (runState 12 runParams, .block 15 0),
+     (runState 12 runParams, runProof 15), (runState 15 runParams, .setParams runParams'),
+     (runState 15 runParams', runProof 19), (runState 19 runParams', .block 20 0)] := by
+  simp only [runEvents, runTrace, run_step1, run_step2, run_step3, run_step4, run_step5, run_step6]
+
+/-- the schedule hypothesis at one position of the example's trace -/
+def runSchedAt (pre : List (State × Event)) (x : State × Event) : Prop :=
+  ∀ s h now, x = (s, Event.block h now) → rewardHeight s h →
+    ∀ j : Int, 0 ≤ j → (10 : Int) ≤ 10 + j * 4 → 10 + (j + 1) * 4 ≤ h →
+      ∃ y ∈ (10 : Int) :: acceptedIn "bob" schedKey pre, 10 + j * 4 ≤ y ∧ y < 10 + (j + 1) * 4
+
+theorem run_accepted1 :
+    acceptedIn "bob" schedKey [(runState 10 runParams, runProof 12)] = [12] := by decide
+
+theorem run_accepted2 :
+    acceptedIn "bob" schedKey
+      [(runState 10 runParams, runProof 12), (runState 12 runParams, .block 15 0),
+       (runState 12 runParams, runProof 15), (runState 15 runParams, .setParams runParams'),
+       (runState 15 runParams', runProof 19)] = [12, 15, 19] := by decide
+
+/-- **All hypotheses of `C02_honest_prover_never_dropped_along_histories` hold for this run** (a
+file of window 4, one accepted proof in each of three windows, two reward blocks, a parameter change
+in between), so its conclusion does: bob passes the chain's test at both reward blocks and is listed
+with his record in all seven states. -/
+theorem C02_honest_run_example :
+    (∀ pre s h now post,
+      runTrace (runState 10 runParams) runEvents = pre ++ (s, Event.block h now) :: post →
+      rewardHeight s h →
+      ∃ f, AMap.get s.files schedKey = some f ∧ ("bob", schedKey) ∈ f.proofs ∧
+        Recent s h f ("bob", schedKey)) ∧
+    (∀ s ∈ runStates (runState 10 runParams) runEvents (runState 19 runParams'),
+      ∃ f p, AMap.get s.files schedKey = some f ∧ ("bob", schedKey) ∈ f.proofs ∧
+        f.proofInterval = runFile.proofInterval ∧ AMap.get s.proofs ("bob", schedKey) = some p) := by
+  apply C02_honest_prover_never_dropped_along_histories "bob" schedKey runEvents
+    (runState 10 runParams) (runState 19 runParams') runFile (schedRecord "bob" 10 0)
+    (runState_consistent 10 runParams) (by decide) (by decide) (by decide) (by decide)
+    run_goes_through
+  · -- heights: 10 ≤ 12 ≤ 15 ≤ 15 ≤ 19 ≤ 20
+    have e : (schedRecord "bob" 10 0).lastProven :: runEvents.filterMap Event.height
+        = [10, 12, 15, 15, 19, 20] := rfl
+    rw [e]; decide
+  · -- no deleteFile / postFile / report in the run
+    rw [run_trace]
+    intro se hse
+    simp only [List.mem_cons, List.not_mem_nil, or_false] at hse
+    rcases hse with rfl | rfl | rfl | rfl | rfl | rfl <;> simp [removesOtherwise, runProof]
+  · -- the schedule
+    intro pre s h now post hsplit
+    rw [run_trace] at hsplit
+    have key : ForallSplits runSchedAt [] _ → _ := fun hfs =>
+      forallSplits_imp runSchedAt _ [] hfs pre (s, Event.block h now) post hsplit
+    rw [List.nil_append] at key
+    refine key ?_ s h now rfl
+    simp only [ForallSplits, List.nil_append, List.cons_append, and_true]
+    refine ⟨?_, ?_, ?_, ?_, ?_, ?_⟩
+    · intro s h now e; simp [runProof] at e
+    · intro s h now e _ j hj0 _ hj2
+      simp only [Prod.mk.injEq, Event.block.injEq] at e
+      obtain ⟨-, rfl, -⟩ := e
+      rw [run_accepted1]
+      have : j = 0 := by omega
+      subst this
+      exact ⟨10, by simp, by decide, by decide⟩
+    · intro s h now e; simp [runProof] at e
+    · intro s h now e; simp at e
+    · intro s h now e; simp [runProof] at e
+    · intro s h now e _ j hj0 _ hj2
+      simp only [Prod.mk.injEq, Event.block.injEq] at e
+      obtain ⟨-, rfl, -⟩ := e
+      rw [run_accepted2]
+      have : j = 0 ∨ j = 1 := by omega
+      rcases this with rfl | rfl
+      · exact ⟨12, by simp, by decide, by decide⟩
+      · exact ⟨15, by simp, by decide, by decide⟩
+
+-- the run has two begin-blockers that do run the reward block, at heights 15 and 20 …
+example : rewardHeight (runState 12 runParams) 15 ∧ rewardHeight (runState 19 runParams') 20 := by
+  constructor <;> (unfold rewardHeight; decide)
+-- … at which the file is no longer young, so the prover *is* judged on its record
+example : isYoung 15 10 4 = false ∧ isYoung 20 10 4 = false := by decide
+-- a prover that skipped window [14,18) would be dropped at 20
+example : provenLastBlock 20 10 4 12 = false := by decide
+
+/-! ### The burn counter: a prover that keeps the schedule on every file it is listed on -/
+
+/-- what is known at the start about prover `c` and file key `k`: the `lastProven` of its record, if
+it is listed there (its joining height for this run) -/
+def initialHeights (c : String) (s0 : State) (k : FKey) : List Int :=
+  match AMap.get s0.files k, AMap.get s0.proofs (c, k) with
+  | some f, some p => if (c, k) ∈ f.proofs then [p.lastProven] else []
+  | _, _ => []
+
+/-- **C02 along whole executions, the burn counter.**
+
+`s0` is any consistent state in which every file `c` is listed on has a proof record of `c`
+(`hrec0`); `evs` any run that goes through, with non-decreasing heights (`hmono`) that are not below
+the `lastProven` of `c`'s initial records (`hpast`).  *No* message is excluded: `c` may join further
+files during the run (from then on it is judged on them too), files may be deleted, `c` may be
+reported off a file (then it is no longer judged on it), parameters may change.
+
+`hsched`, the schedule, for **every** file `c` is listed on when a begin-blocker runs the reward block
+at height `h`: with `W` that file's own proof window (`≥ 1`) and `A` the heights of `c`'s accepted
+proofs for it so far (the initial `lastProven` included), every complete window
+`[start + j·W, start + (j+1)·W)`, `j ≥ 0`, that ends at or before `h` and begins at or after some
+height of `A` (i.e. after `c` joined) contains a height of `A`.
+
+Then
+1. every begin-blocker of the run leaves `c`'s provider record — burn counter included — untouched;
+2. if moreover `c` neither shuts down nor (re-)initialises its provider record during the run
+   (`initProvider` starts a counter at 0), the burn counter at the end equals the one at the start. -/
+theorem C02_honest_provider_never_burned_along_histories
+    (c : String) (evs : List Event) (s0 s' : State)
+    (hc : Consistent s0)
+    (hrec0 : ∀ k f, AMap.get s0.files k = some f → (c, k) ∈ f.proofs →
+      ∃ p, AMap.get s0.proofs (c, k) = some p)
+    (hrun : evs.foldlM applyEvent s0 = some s')
+    (hmono : (evs.filterMap Event.height).Pairwise (· ≤ ·))
+    (hpast : ∀ k, ∀ x ∈ initialHeights c s0 k, ∀ h ∈ evs.filterMap Event.height, x ≤ h)
+    (hsched : ∀ pre s h now post, runTrace s0 evs = pre ++ (s, Event.block h now) :: post →
+      rewardHeight s h →
+      ∀ k f, AMap.get s.files k = some f → (c, k) ∈ f.proofs →
+        1 ≤ f.proofInterval ∧
+        ∀ j : Int, 0 ≤ j →
+          (∃ x ∈ initialHeights c s0 k ++ acceptedIn c k pre, x ≤ k.2.2 + j * f.proofInterval) →
+          k.2.2 + (j + 1) * f.proofInterval ≤ h →
+          ∃ x ∈ initialHeights c s0 k ++ acceptedIn c k pre,
+            k.2.2 + j * f.proofInterval ≤ x ∧ x < k.2.2 + (j + 1) * f.proofInterval) :
+    (∀ pre s h now post sa, runTrace s0 evs = pre ++ (s, Event.block h now) :: post →
+      applyEvent s (.block h now) = some sa →
+      AMap.get sa.providers c = AMap.get s.providers c) ∧
+    ((∀ e ∈ evs, ¬ touchesProviderRecord c e) →
+      (AMap.get s'.providers c).map (·.burned) = (AMap.get s0.providers c).map (·.burned)) := by
+  have h0 : ∀ k, CondHeld c k s0 (initialHeights c s0 k) := by
+    intro k f hf hl
+    obtain ⟨p, hp⟩ := hrec0 k f hf hl
+    have e : initialHeights c s0 k = [p.lastProven] := by
+      simp only [initialHeights, hf, hp, hl, if_true]
+    rw [e]
+    exact ⟨by simp, p, hp, fun x hx => by rw [List.mem_singleton.mp hx]; exact Int.le_refl _⟩
+  have hwin : ∀ pre s h now post, runTrace s0 evs = pre ++ (s, Event.block h now) :: post →
+      rewardHeight s h → Consistent s → ∀ k f, AMap.get s.files k = some f → (c, k) ∈ f.proofs →
+        ∀ lp, initialHeights c s0 k ++ acceptedIn c k pre ≠ [] →
+          (∀ x ∈ initialHeights c s0 k ++ acceptedIn c k pre, x ≤ lp) → WindowOK h f lp := by
+    intro pre s h now post hsplit hrh hcs k f hf hl lp hne hlp
+    have hst : f.start = k.2.2 := by rw [← hcs.key k f hf]; rfl
+    obtain ⟨hW, hev⟩ := hsched pre s h now post hsplit hrh k f hf hl
+    obtain ⟨x0, hx0⟩ := List.exists_mem_of_ne_nil _ hne
+    unfold WindowOK
+    rw [hst]
+    exact C02_schedule_gives_window_test k.2.2 f.proofInterval h lp x0 _ hW hx0 hlp
+      (fun j hj hx hjw => hev j hj ⟨x0, hx0, hx⟩ hjw)
+  obtain ⟨_, hall⟩ := condHeld_run c evs s0 s' (initialHeights c s0) hc h0 hrun hmono hpast hwin
+  have part1 : ∀ pre s h now post sa, runTrace s0 evs = pre ++ (s, Event.block h now) :: post →
+      applyEvent s (.block h now) = some sa →
+      AMap.get sa.providers c = AMap.get s.providers c := by
+    intro pre s h now post sa hsplit hs
+    obtain ⟨hcs, hinv⟩ := hall pre s _ post hsplit
+    apply block_keeps_provider hcs (applyEvent_block hs) c
+    intro hrh
+    exact honestProvider_of_condHeld hcs c h _ hinv
+      (fun k f hf hl lp hne hlp => hwin pre s h now post hsplit hrh hcs k f hf hl lp hne hlp)
+  refine ⟨part1, ?_⟩
+  intro hprov
+  have := (trace_induct evs
+    (fun s _ => Consistent s ∧
+      (AMap.get s.providers c).map (·.burned) = (AMap.get s0.providers c).map (·.burned))
+    s0 s' hrun ⟨hc, rfl⟩ ?_).1
+  · exact this.2
+  · intro pre s e post s1 hsplit hs ⟨hcs, hq⟩
+    refine ⟨consistent_event hcs hs, ?_⟩
+    rw [← hq]
+    cases e with
+    | msg h now op =>
+      exact step_burned hcs hs c (hprov _ (event_mem_of_split hrun hsplit))
+    | block h now =>
+      rw [part1 pre s h now post s1 hsplit hs]
+    | setParams q =>
+      simp only [applyEvent, Option.some.injEq] at hs
+      subst hs; rfl
+
+/-! ### Non-vacuity of `C02_honest_provider_never_burned_along_histories` (same run) -/
+
+theorem run_files_get {lp : Int} {ps : Params} {k : FKey} {f : File}
+    (h : AMap.get (runState lp ps).files k = some f) : k = schedKey ∧ f = runFile := by
+  simp only [runState, AMap.get] at h
+  split at h
+  · rename_i e; cases h; exact ⟨e.symm, rfl⟩
+  · cases h
+
+theorem run_initialHeights (k : FKey) :
+    initialHeights "bob" (runState 10 runParams) k = if k = schedKey then [10] else [] := by
+  by_cases hk : k = schedKey
+  · subst hk; rw [if_pos rfl]; decide
+  · rw [if_neg hk]
+    have : AMap.get (runState 10 runParams).files k = none := by
+      simp only [runState, AMap.get]
+      rw [if_neg (fun e => hk e.symm)]
+    simp only [initialHeights, this]
+
+/-- the schedule hypothesis of the burn-counter theorem at one position of the example's trace -/
+def runSchedAt2 (pre : List (State × Event)) (x : State × Event) : Prop :=
+  ∀ s h now, x = (s, Event.block h now) → rewardHeight s h →
+    ∀ k f, AMap.get s.files k = some f → ("bob", k) ∈ f.proofs →
+      1 ≤ f.proofInterval ∧
+      ∀ j : Int, 0 ≤ j →
+        (∃ x ∈ initialHeights "bob" (runState 10 runParams) k ++ acceptedIn "bob" k pre,
+          x ≤ k.2.2 + j * f.proofInterval) →
+        k.2.2 + (j + 1) * f.proofInterval ≤ h →
+        ∃ x ∈ initialHeights "bob" (runState 10 runParams) k ++ acceptedIn "bob" k pre,
+          k.2.2 + j * f.proofInterval ≤ x ∧ x < k.2.2 + (j + 1) * f.proofInterval
+
+/-- all hypotheses of `C02_honest_provider_never_burned_along_histories` hold for the example run -/
+theorem C02_honest_run_example_burn :
+    (∀ pre s h now post sa,
+      runTrace (runState 10 runParams) runEvents = pre ++ (s, Event.block h now) :: post →
+      applyEvent s (.block h now) = some sa →
+      AMap.get sa.providers "bob" = AMap.get s.providers "bob") ∧
+    ((∀ e ∈ runEvents, ¬ touchesProviderRecord "bob" e) →
+      (AMap.get (runState 19 runParams').providers "bob").map (·.burned) =
+        (AMap.get (runState 10 runParams).providers "bob").map (·.burned)) := by
+  apply C02_honest_provider_never_burned_along_histories "bob" runEvents
+    (runState 10 runParams) (runState 19 runParams') (runState_consistent 10 runParams)
+  · intro k f hf _
+    obtain ⟨rfl, rfl⟩ := run_files_get hf
+    exact ⟨_, rfl⟩
+  · exact run_goes_through
+  · have e : runEvents.filterMap Event.height = [12, 15, 15, 19, 20] := rfl
+    rw [e]; decide
+  · intro k x hx h hh
+    rw [run_initialHeights] at hx
+    split at hx
+    · have e : runEvents.filterMap Event.height = [12, 15, 15, 19, 20] := rfl
+      rw [e] at hh
+      simp only [List.mem_cons, List.not_mem_nil, or_false] at hx hh
+      omega
+    · cases hx
+  · intro pre s h now post hsplit
+    rw [run_trace] at hsplit
+    have key : ForallSplits runSchedAt2 [] _ → _ := fun hfs =>
+      forallSplits_imp runSchedAt2 _ [] hfs pre (s, Event.block h now) post hsplit
+    rw [List.nil_append] at key
+    refine key ?_ s h now rfl
+    simp only [ForallSplits, List.nil_append, List.cons_append, and_true]
+    refine ⟨?_, ?_, ?_, ?_, ?_, ?_⟩
+    · intro s h now e; simp [runProof] at e
+    · intro s h now e _ k f hf _
+      simp only [Prod.mk.injEq, Event.block.injEq] at e
+      obtain ⟨rfl, rfl, -⟩ := e
+      obtain ⟨rfl, rfl⟩ := run_files_get hf
+      rw [run_initialHeights, if_pos rfl, run_accepted1]
+      refine ⟨by decide, ?_⟩
+      intro j hj0 _ hj2
+      have hj2' : (10 : Int) + (j + 1) * 4 ≤ 15 := hj2
+      have : j = 0 := by omega
+      subst this
+      exact ⟨10, by simp, by decide, by decide⟩
+    · intro s h now e; simp [runProof] at e
+    · intro s h now e; simp at e
+    · intro s h now e; simp [runProof] at e
+    · intro s h now e _ k f hf _
+      simp only [Prod.mk.injEq, Event.block.injEq] at e
+      obtain ⟨rfl, rfl, -⟩ := e
+      obtain ⟨rfl, rfl⟩ := run_files_get hf
+      rw [run_initialHeights, if_pos rfl, run_accepted2]
+      refine ⟨by decide, ?_⟩
+      intro j hj0 _ hj2
+      have hj2' : (10 : Int) + (j + 1) * 4 ≤ 20 := hj2
+      have : j = 0 ∨ j = 1 := by omega
+      rcases this with rfl | rfl
+      · exact ⟨12, by simp, by decide, by decide⟩
+      · exact ⟨15, by simp, by decide, by decide⟩
+
+-- no `initProvider` / `shutdownProvider` of bob in the run
+example : ∀ e ∈ runEvents, ¬ touchesProviderRecord "bob" e := by
+  intro e he
+  simp only [runEvents, List.mem_cons, List.not_mem_nil, or_false] at he
+  rcases he with rfl | rfl | rfl | rfl | rfl | rfl <;> simp [touchesProviderRecord, runProof]
 
 end Canine.Storage
